@@ -254,7 +254,7 @@ def emit_heap_frames(c, I, S, ctx, tagsof):
     mods = c.modifies(I, S)
     bad = []
     for w in ctx.writes:
-        if w[0] in ("field", "list", "dict", "sdict", "cell", "set") and not any(w[1] is m for m in mods):
+        if w[0] in ("field", "list", "dict", "sdict", "nested", "cell", "set") and not any(w[1] is m for m in mods):
             bad.append(f"{w[0]}:{getattr(w[1], 'label', None) or w[1]!r}" + (f".{w[2]}" if len(w) > 2 else ""))
     inf = tagsof("frame:heap")
     inf["tags"] = sorted(set(inf["tags"]) | set(c.all_props()) | {"C13", "C19"})
